@@ -14,7 +14,10 @@ def main():
     out = []
     for j in jobs:
         spec = gen.spec_from_json(j["spec"])
-        sr = SR(j["sr"], j["dtype"], Fraction(j.get("scale", "1")))
+        vexp = (j["sr"] == "viterbi_exp")
+        sr = SR("log" if vexp else j["sr"], j["dtype"], Fraction(j.get("scale", "1")))
+        if vexp:
+            sr.semiring = lambda: fggs.ViterbiSemiring(dtype=sr.torch_dtype())
         res = dict(debug=__debug__)
         try:
             b = gen.build_fgg(spec, sr.wconv, ids=j.get("ids", "explicit"), dtype=sr.torch_dtype())
